@@ -20,11 +20,22 @@ def main():
     env.setup_paths()
     ok, where = env.origin_ok()
     mod = importlib.import_module(f"vmon.checks.{check_id.lower()}")
+    from vmon import abort
+
+    def emit(i, res):
+        try:
+            out = json.dumps({"i": i, "res": res}, default=str)
+        except Exception as ex:
+            out = json.dumps({"i": i, "res": {"status": "inconclusive", "detail": f"unserialisable result {ex!r}"}})
+        proto_out.write(out + "\n")
+        proto_out.flush()
+
     for line in sys.stdin:
         line = line.strip()
         if not line:
             continue
         msg = json.loads(line)
+        abort.set_emitter(lambda res, i=msg["i"]: emit(i, res))
         if not ok:
             res = {"status": "inconclusive", "detail": f"uberjob imported from {where}, not from the working tree"}
         else:
@@ -37,12 +48,7 @@ def main():
                     "trace": traceback.format_exc()[-3000:],
                     "taint": True,
                 }
-        try:
-            out = json.dumps({"i": msg["i"], "res": res}, default=str)
-        except Exception as ex:
-            out = json.dumps({"i": msg["i"], "res": {"status": "inconclusive", "detail": f"unserialisable result {ex!r}"}})
-        proto_out.write(out + "\n")
-        proto_out.flush()
+        emit(msg["i"], res)
 
 
 if __name__ == "__main__":
